@@ -248,4 +248,305 @@ def PathSeg.reverse (self : PathSeg K) : PathSeg K :=
 def PathSeg.to_cubic (self : PathSeg K) : CubicBez K :=
   (match self with | (PathSeg.Line { p0 := p0, p1 := p1 }) => (CubicBez.new p0 p0 p1 p1) | (PathSeg.Cubic c) => c | (PathSeg.Quad q) => q.raise)
 
+def Rect.width (self : Rect K) : K :=
+  (self.x1 - self.x0)
+
+def Rect.height (self : Rect K) : K :=
+  (self.y1 - self.y0)
+
+def Rect.min_x (self : Rect K) : K :=
+  (smin self.x0 self.x1)
+
+def Rect.max_x (self : Rect K) : K :=
+  (smax self.x0 self.x1)
+
+def Rect.min_y (self : Rect K) : K :=
+  (smin self.y0 self.y1)
+
+def Rect.max_y (self : Rect K) : K :=
+  (smax self.y0 self.y1)
+
+def Rect.area (self : Rect K) : K :=
+  (self.width * self.height)
+
+def Rect.origin (self : Rect K) : Point K :=
+  (Point.new self.x0 self.y0)
+
+def Rect.size (self : Rect K) : Size K :=
+  (Size.new self.width self.height)
+
+def Rect.center (self : Rect K) : Point K :=
+  (Point.new ((Scalar.ofRat (1/2 : Rat) : K) * (self.x0 + self.x1)) ((Scalar.ofRat (1/2 : Rat) : K) * (self.y0 + self.y1)))
+
+def Rect.is_zero_area (self : Rect K) : Bool :=
+  (self.area ==. (0 : K))
+
+def Rect.contains (self : Rect K) (point : Point K) : Bool :=
+  ((((self.x0 <=. point.x) && (point.x <. self.x1)) && (self.y0 <=. point.y)) && (point.y <. self.y1))
+
+def Rect.abs (self : Rect K) : Rect K :=
+  (let ⟨x0, y0, x1, y1⟩ := self; (Rect.new (smin x0 x1) (smin y0 y1) (smax x0 x1) (smax y0 y1)))
+
+instance : MAbs (Rect K) := ⟨Rect.abs⟩
+
+def Rect.from_points (p0 p1 : Point K) : Rect K :=
+  (let p0 := p0; (let p1 := p1; (MAbs.abs (Rect.new p0.x p0.y p1.x p1.y))))
+
+/-- `impl From<(Point, Point)> for Rect` -/
+instance : Coe (Point K × Point K) (Rect K) := ⟨fun p => Rect.from_points p.1 p.2⟩
+
+def Rect.union (self other : Rect K) : Rect K :=
+  (Rect.new (smin self.x0 other.x0) (smin self.y0 other.y0) (smax self.x1 other.x1) (smax self.y1 other.y1))
+
+def Rect.union_pt (self : Rect K) (pt : Point K) : Rect K :=
+  (Rect.new (smin self.x0 pt.x) (smin self.y0 pt.y) (smax self.x1 pt.x) (smax self.y1 pt.y))
+
+def Rect.intersect (self other : Rect K) : Rect K :=
+  (let x0 := (smax self.x0 other.x0); (let y0 := (smax self.y0 other.y0); (let x1 := (smin self.x1 other.x1); (let y1 := (smin self.y1 other.y1); (Rect.new x0 y0 (smax x1 x0) (smax y1 y0))))))
+
+def Rect.overlaps (self other : Rect K) : Bool :=
+  ((((self.x0 <=. other.x1) && (other.x0 <=. self.x1)) && (self.y0 <=. other.y1)) && (other.y0 <=. self.y1))
+
+def Rect.contains_rect (self other : Rect K) : Bool :=
+  ((((self.x0 <=. other.x0) && (self.y0 <=. other.y0)) && (other.x1 <=. self.x1)) && (other.y1 <=. self.y1))
+
+def Rect.inflate (self : Rect K) (width height : K) : Rect K :=
+  (Rect.new (self.x0 - width) (self.y0 - height) (self.x1 + width) (self.y1 + height))
+
+def Rect.round (self : Rect K) : Rect K :=
+  (Rect.new (MRound.round self.x0) (MRound.round self.y0) (MRound.round self.x1) (MRound.round self.y1))
+
+instance : MRound (Rect K) := ⟨Rect.round⟩
+
+def Rect.ceil (self : Rect K) : Rect K :=
+  (Rect.new (MCeil.ceil self.x0) (MCeil.ceil self.y0) (MCeil.ceil self.x1) (MCeil.ceil self.y1))
+
+instance : MCeil (Rect K) := ⟨Rect.ceil⟩
+
+def Rect.floor (self : Rect K) : Rect K :=
+  (Rect.new (MFloor.floor self.x0) (MFloor.floor self.y0) (MFloor.floor self.x1) (MFloor.floor self.y1))
+
+instance : MFloor (Rect K) := ⟨Rect.floor⟩
+
+def Rect.expand (self : Rect K) : Rect K :=
+  (let (x0, x1) := (if (self.x0 <. self.x1) then ((MFloor.floor self.x0), (MCeil.ceil self.x1)) else ((MCeil.ceil self.x0), (MFloor.floor self.x1))); (let (y0, y1) := (if (self.y0 <. self.y1) then ((MFloor.floor self.y0), (MCeil.ceil self.y1)) else ((MCeil.ceil self.y0), (MFloor.floor self.y1))); (Rect.new x0 y0 x1 y1)))
+
+instance : MExpand (Rect K) := ⟨Rect.expand⟩
+
+def Rect.trunc (self : Rect K) : Rect K :=
+  (let (x0, x1) := (if (self.x0 <. self.x1) then ((MCeil.ceil self.x0), (MFloor.floor self.x1)) else ((MFloor.floor self.x0), (MCeil.ceil self.x1))); (let (y0, y1) := (if (self.y0 <. self.y1) then ((MCeil.ceil self.y0), (MFloor.floor self.y1)) else ((MFloor.floor self.y0), (MCeil.ceil self.y1))); (Rect.new x0 y0 x1 y1)))
+
+instance : MTrunc (Rect K) := ⟨Rect.trunc⟩
+
+def Rect.scale_from_origin (self : Rect K) (factor : K) : Rect K :=
+  ({ x0 := (self.x0 * factor), y0 := (self.y0 * factor), x1 := (self.x1 * factor), y1 := (self.y1 * factor) } : Rect K)
+
+def Rect.add_Vec2 (self : Rect K) (v : Vec2 K) : Rect K :=
+  (Rect.new (self.x0 + v.x) (self.y0 + v.y) (self.x1 + v.x) (self.y1 + v.y))
+
+instance : HAdd (Rect K) (Vec2 K) (Rect K) := ⟨Rect.add_Vec2⟩
+
+def Rect.sub_Vec2 (self : Rect K) (v : Vec2 K) : Rect K :=
+  (Rect.new (self.x0 - v.x) (self.y0 - v.y) (self.x1 - v.x) (self.y1 - v.y))
+
+instance : HSub (Rect K) (Vec2 K) (Rect K) := ⟨Rect.sub_Vec2⟩
+
+def Rect.sub_Rect (self other : Rect K) : Insets K :=
+  (let x0 := (other.x0 - self.x0); (let y0 := (other.y0 - self.y0); (let x1 := (self.x1 - other.x1); (let y1 := (self.y1 - other.y1); ({ x0 := x0, y0 := y0, x1 := x1, y1 := y1 } : Insets K)))))
+
+instance : HSub (Rect K) (Rect K) (Insets K) := ⟨Rect.sub_Rect⟩
+
+def Rect.perimeter (self : Rect K) (_accuracy : K) : K :=
+  ((2 : K) * ((MAbs.abs self.width) + (MAbs.abs self.height)))
+
+def Rect.winding (self : Rect K) (pt : Point K) : Int :=
+  (let xmin := (smin self.x0 self.x1); (let xmax := (smax self.x0 self.x1); (let ymin := (smin self.y0 self.y1); (let ymax := (smax self.y0 self.y1); (if ((((xmin <=. pt.x) && (pt.x <. xmax)) && (ymin <=. pt.y)) && (pt.y <. ymax)) then (if ((self.x0 <. self.x1) ^^ (self.y0 <. self.y1)) then (-1) else 1) else 0)))))
+
+def Rect.bounding_box (self : Rect K) : Rect K :=
+  (MAbs.abs self)
+
+def Insets.neg (self : Insets K) : Insets K :=
+  (Insets.new (-self.x0) (-self.y0) (-self.x1) (-self.y1))
+
+instance : Neg (Insets K) := ⟨Insets.neg⟩
+
+def Insets.add_Rect (self : Insets K) (other : Rect K) : Rect K :=
+  (let other := (MAbs.abs other); (Rect.new (other.x0 - self.x0) (other.y0 - self.y0) (other.x1 + self.x1) (other.y1 + self.y1)))
+
+instance : HAdd (Insets K) (Rect K) (Rect K) := ⟨Insets.add_Rect⟩
+
+def Rect.add_Insets (self : Rect K) (other : Insets K) : Rect K :=
+  (other + self)
+
+instance : HAdd (Rect K) (Insets K) (Rect K) := ⟨Rect.add_Insets⟩
+
+def Insets.sub_Rect (self : Insets K) (other : Rect K) : Rect K :=
+  (other + (-self))
+
+instance : HSub (Insets K) (Rect K) (Rect K) := ⟨Insets.sub_Rect⟩
+
+def Rect.sub_Insets (self : Rect K) (other : Insets K) : Rect K :=
+  (other - self)
+
+instance : HSub (Rect K) (Insets K) (Rect K) := ⟨Rect.sub_Insets⟩
+
+def Insets.x_value (self : Insets K) : K :=
+  (self.x0 + self.x1)
+
+def Insets.y_value (self : Insets K) : K :=
+  (self.y0 + self.y1)
+
+def Insets.size (self : Insets K) : Size K :=
+  (Size.new self.x_value self.y_value)
+
+def Affine.mul_Point (self : Affine K) (other : Point K) : Point K :=
+  (Point.new (((self.c0 * other.x) + (self.c2 * other.y)) + self.c4) (((self.c1 * other.x) + (self.c3 * other.y)) + self.c5))
+
+instance : HMul (Affine K) (Point K) (Point K) := ⟨Affine.mul_Point⟩
+
+def Affine.mul_Affine (self other : Affine K) : Affine K :=
+  (Affine.mk ((self.c0 * other.c0) + (self.c2 * other.c1)) ((self.c1 * other.c0) + (self.c3 * other.c1)) ((self.c0 * other.c2) + (self.c2 * other.c3)) ((self.c1 * other.c2) + (self.c3 * other.c3)) (((self.c0 * other.c4) + (self.c2 * other.c5)) + self.c4) (((self.c1 * other.c4) + (self.c3 * other.c5)) + self.c5))
+
+instance : HMul (Affine K) (Affine K) (Affine K) := ⟨Affine.mul_Affine⟩
+
+def Affine.scale (s : K) : Affine K :=
+  (Affine.mk s (0 : K) (0 : K) s (0 : K) (0 : K))
+
+def Affine.scale_non_uniform (s_x s_y : K) : Affine K :=
+  (Affine.mk s_x (0 : K) (0 : K) s_y (0 : K) (0 : K))
+
+def Affine.translate (p : Vec2 K) : Affine K :=
+  (let p := p; (Affine.mk (1 : K) (0 : K) (0 : K) (1 : K) p.x p.y))
+
+def Affine.skew (skew_x skew_y : K) : Affine K :=
+  (Affine.mk (1 : K) skew_y skew_x (1 : K) (0 : K) (0 : K))
+
+def Affine.rotate (th : K) : Affine K :=
+  (let (s, c) := ((Scalar.sin th, Scalar.cos th)); (Affine.mk c s (-s) c (0 : K) (0 : K)))
+
+def Affine.then_translate (self : Affine K) (trans : Vec2 K) : Affine K :=
+  (let self := { self with c4 := (self.c4 + trans.x) }; (let self := { self with c5 := (self.c5 + trans.y) }; self))
+
+def Affine.then_rotate (self : Affine K) (th : K) : Affine K :=
+  ((Affine.rotate th) * self)
+
+def Affine.then_scale (self : Affine K) (scale : K) : Affine K :=
+  ((Affine.scale scale) * self)
+
+def Affine.then_scale_non_uniform (self : Affine K) (scale_x scale_y : K) : Affine K :=
+  ((Affine.scale_non_uniform scale_x scale_y) * self)
+
+def Affine.scale_about (s : K) (center : Point K) : Affine K :=
+  (let center := center.to_vec2; (((Affine.translate (-center)).then_scale s).then_translate center))
+
+def Affine.rotate_about (th : K) (center : Point K) : Affine K :=
+  (let center := center.to_vec2; (((Affine.translate (-center)).then_rotate th).then_translate center))
+
+def Affine.then_rotate_about (self : Affine K) (th : K) (center : Point K) : Affine K :=
+  ((Affine.rotate_about th center) * self)
+
+def Affine.then_scale_about (self : Affine K) (scale : K) (center : Point K) : Affine K :=
+  ((Affine.scale_about scale center) * self)
+
+def Affine.pre_rotate (self : Affine K) (th : K) : Affine K :=
+  (self * (Affine.rotate th))
+
+def Affine.pre_rotate_about (self : Affine K) (th : K) (center : Point K) : Affine K :=
+  ((Affine.rotate_about th center) * self)
+
+def Affine.pre_scale (self : Affine K) (scale : K) : Affine K :=
+  (self * (Affine.scale scale))
+
+def Affine.pre_scale_non_uniform (self : Affine K) (scale_x scale_y : K) : Affine K :=
+  (self * (Affine.scale_non_uniform scale_x scale_y))
+
+def Affine.pre_translate (self : Affine K) (trans : Vec2 K) : Affine K :=
+  (self * (Affine.translate trans))
+
+def Affine.reflect (point : Point K) (direction : Vec2 K) : Affine K :=
+  (let point := point; (let direction := direction; (let n := ({ x := direction.y, y := (-direction.x) } : Vec2 K).normalize; (let x2 := (n.x * n.x); (let xy := (n.x * n.y); (let y2 := (n.y * n.y); (let aff := (Affine.mk ((1 : K) - ((2 : K) * x2)) ((-(2 : K)) * xy) ((-(2 : K)) * xy) ((1 : K) - ((2 : K) * y2)) point.x point.y); (aff.pre_translate (-point.to_vec2)))))))))
+
+def Affine.map_unit_square (rect : Rect K) : Affine K :=
+  (Affine.mk rect.width (0 : K) (0 : K) rect.height rect.x0 rect.y0)
+
+def Affine.determinant (self : Affine K) : K :=
+  ((self.c0 * self.c3) - (self.c1 * self.c2))
+
+def Affine.inverse (self : Affine K) : Affine K :=
+  (let inv_det := (srecip self.determinant); (Affine.mk (inv_det * self.c3) ((-inv_det) * self.c1) ((-inv_det) * self.c2) (inv_det * self.c0) (inv_det * ((self.c2 * self.c5) - (self.c3 * self.c4))) (inv_det * ((self.c1 * self.c4) - (self.c0 * self.c5)))))
+
+def Affine.transform_rect_bbox (self : Affine K) (rect : Rect K) : Rect K :=
+  (let p00 := (self * (Point.new rect.x0 rect.y0)); (let p01 := (self * (Point.new rect.x0 rect.y1)); (let p10 := (self * (Point.new rect.x1 rect.y0)); (let p11 := (self * (Point.new rect.x1 rect.y1)); ((Rect.from_points p00 p01).union (Rect.from_points p10 p11))))))
+
+def Affine.translation (self : Affine K) : Vec2 K :=
+  ({ x := self.c4, y := self.c5 } : Vec2 K)
+
+def Affine.with_translation (self : Affine K) (trans : Vec2 K) : Affine K :=
+  (let self := { self with c4 := trans.x }; (let self := { self with c5 := trans.y }; self))
+
+def Affine.mul_Line (self : Affine K) (other : Line K) : Line K :=
+  ({ p0 := (self * other.p0), p1 := (self * other.p1) } : Line K)
+
+instance : HMul (Affine K) (Line K) (Line K) := ⟨Affine.mul_Line⟩
+
+def Affine.mul_QuadBez (self : Affine K) (other : QuadBez K) : QuadBez K :=
+  ({ p0 := (self * other.p0), p1 := (self * other.p1), p2 := (self * other.p2) } : QuadBez K)
+
+instance : HMul (Affine K) (QuadBez K) (QuadBez K) := ⟨Affine.mul_QuadBez⟩
+
+def Affine.mul_CubicBez (self : Affine K) (c : CubicBez K) : CubicBez K :=
+  ({ p0 := (self * c.p0), p1 := (self * c.p1), p2 := (self * c.p2), p3 := (self * c.p3) } : CubicBez K)
+
+instance : HMul (Affine K) (CubicBez K) (CubicBez K) := ⟨Affine.mul_CubicBez⟩
+
+def Affine.mul_PathSeg (self : Affine K) (other : PathSeg K) : PathSeg K :=
+  (match other with | (PathSeg.Line line) => (PathSeg.Line (self * line)) | (PathSeg.Quad quad) => (PathSeg.Quad (self * quad)) | (PathSeg.Cubic cubic) => (PathSeg.Cubic (self * cubic)))
+
+instance : HMul (Affine K) (PathSeg K) (PathSeg K) := ⟨Affine.mul_PathSeg⟩
+
+def Affine.mul_PathEl (self : Affine K) (other : PathEl K) : PathEl K :=
+  (match other with | (PathEl.MoveTo p) => (PathEl.MoveTo (self * p)) | (PathEl.LineTo p) => (PathEl.LineTo (self * p)) | (PathEl.QuadTo p1 p2) => (PathEl.QuadTo (self * p1) (self * p2)) | (PathEl.CurveTo p1 p2 p3) => (PathEl.CurveTo (self * p1) (self * p2) (self * p3)) | PathEl.ClosePath => PathEl.ClosePath)
+
+instance : HMul (Affine K) (PathEl K) (PathEl K) := ⟨Affine.mul_PathEl⟩
+
+def TranslateScale.translate (translation : Vec2 K) : TranslateScale K :=
+  (TranslateScale.new translation (1 : K))
+
+def TranslateScale.from_scale_about (scale : K) (focus : Point K) : TranslateScale K :=
+  (let focus := focus.to_vec2; (let translation := (focus - (focus * scale)); (TranslateScale.new translation scale)))
+
+def TranslateScale.inverse (self : TranslateScale K) : TranslateScale K :=
+  (let scale_recip := (srecip self.scale); ({ translation := (self.translation * (-scale_recip)), scale := scale_recip } : TranslateScale K))
+
+def TranslateScale.to_affine (ts : TranslateScale K) : Affine K :=
+  (let ⟨translation, scale⟩ := ts; (Affine.mk scale (0 : K) (0 : K) scale translation.x translation.y))
+
+def TranslateScale.mul_Point (self : TranslateScale K) (other : Point K) : Point K :=
+  ((self.scale * other.to_vec2).to_point + self.translation)
+
+instance : HMul (TranslateScale K) (Point K) (Point K) := ⟨TranslateScale.mul_Point⟩
+
+def TranslateScale.mul_TranslateScale (self other : TranslateScale K) : TranslateScale K :=
+  ({ translation := (self.translation + (self.scale * other.translation)), scale := (self.scale * other.scale) } : TranslateScale K)
+
+instance : HMul (TranslateScale K) (TranslateScale K) (TranslateScale K) := ⟨TranslateScale.mul_TranslateScale⟩
+
+def TranslateScale.add_Vec2 (self : TranslateScale K) (other : Vec2 K) : TranslateScale K :=
+  ({ translation := (self.translation + other), scale := self.scale } : TranslateScale K)
+
+def TranslateScale.sub_Vec2 (self : TranslateScale K) (other : Vec2 K) : TranslateScale K :=
+  ({ translation := (self.translation - other), scale := self.scale } : TranslateScale K)
+
+def TranslateScale.mul_Line (self : TranslateScale K) (other : Line K) : Line K :=
+  (Line.new (self * other.p0) (self * other.p1))
+
+def TranslateScale.mul_Rect (self : TranslateScale K) (other : Rect K) : Rect K :=
+  (let pt0 := (self * (Point.new other.x0 other.y0)); (let pt1 := (self * (Point.new other.x1 other.y1)); (pt0, pt1)))
+
+def TranslateScale.mul_QuadBez (self : TranslateScale K) (other : QuadBez K) : QuadBez K :=
+  (QuadBez.new (self * other.p0) (self * other.p1) (self * other.p2))
+
+def TranslateScale.mul_CubicBez (self : TranslateScale K) (other : CubicBez K) : CubicBez K :=
+  (CubicBez.new (self * other.p0) (self * other.p1) (self * other.p2) (self * other.p3))
+
 end Kurbo
